@@ -5,7 +5,9 @@ import (
 	"encoding/json"
 	"fmt"
 	"math"
+	"math/big"
 	"regexp"
+	"strconv"
 	"strings"
 	"time"
 	"unicode/utf8"
@@ -540,11 +542,139 @@ func c12Run(c *engine.Ctx) {
 		c.DistinctN(1)
 	}
 	c.Sample(map[string]any{"command": `gojq -n --arg s <string> '{k: $s, ($s): 1}'`, "options": "-c, default, --tab, --indent 5, -C; --yaml-output | --yaml-input"})
+
+	// numbers that enter through --yaml-input are spelled the YAML way (+1, .5, 1., 0x10, 1_000): whatever reaches the
+	// output must be well-formed JSON with the same value; and numbers of every kind written with --yaml-output read back
+	// as the same numbers
+	c.Sub("yaml-numbers")
+	if c.MineIdx(0) {
+		signs := []string{"", "+", "-"}
+		ints := []string{"0", "1", "12", "007", "1_000", "100000000000000000000", "0x1F", "0o17", "0b101"}
+		fracs := []string{"", ".", ".5", ".50", ".0"}
+		exps := []string{"", "e3", "E3", "e+03", "e-2", "e0"}
+		var lits []string
+		for _, sg := range signs {
+			for _, in := range ints {
+				for _, fr := range fracs {
+					for _, ex := range exps {
+						if (strings.ContainsAny(in, "xob_") || in == "007") && (fr != "" || ex != "") {
+							continue
+						}
+						lits = append(lits, sg+in+fr+ex)
+					}
+				}
+			}
+			for _, l := range []string{".5", ".5e1", ".0", ".25E+2"} {
+				lits = append(lits, sg+l)
+			}
+		}
+		for _, lit := range lits {
+			for _, form := range []string{"%s\n", "- %s\n- 1\n", "k: %s\n", "[%s, {a: %s}]\n"} {
+				doc := strings.ReplaceAll(form, "%s", lit)
+				c.Eval()
+				for _, args := range [][]string{{"--yaml-input", "-c", "."}, {"--yaml-input", "."}, {"--yaml-input", "-c", "[.. | numbers | . + 0]"}, {"--yaml-input", "-c", "tojson"}, {"--yaml-input", "--tab", "[., [.]]"}} {
+					r := RunCLIString(args, doc)
+					if r.Status != 0 {
+						c.Outcome("yaml scalar is not a number or not accepted")
+						continue
+					}
+					var back any
+					dec := json.NewDecoder(strings.NewReader(r.Stdout))
+					dec.UseNumber()
+					if err := dec.Decode(&back); err != nil {
+						c.Violation(fmt.Sprintf("yaml-number %q %v", doc, args), "yaml", map[string]any{"why": fmt.Sprintf("the YAML document %q comes out as %q, which is not well-formed JSON: %v", doc, r.Stdout, err)})
+						break
+					}
+					c.Outcome("yaml number -> well-formed JSON")
+				}
+				c.DistinctN(1)
+			}
+		}
+		// --yaml-output | --yaml-input on numbers of every kind
+		for _, q := range []string{"100000000000000000000", "-123456789012345678901234567890", "[1, 1.5, 1e100, -1, 9007199254740993, 18446744073709551616]", "{a: 10000000000000000000000, b: [340282366920938463463374607431768211456]}",
+			"pow(2; 64)", "9223372036854775807 + 1", "[limit(3; range(9223372036854775806; 9223372036854775900))]", "1e1000", "[0.1, 1e-7, 1e21, 5e-324]", "$big", "[$big, {k: $big}]", "$jn"} {
+			c.Eval()
+			args := []string{"-n", "--argjson", "big", "1000000000000000000000000", "--argjson", "jn", "[1.10, 1e2, 100000000000000000000]"}
+			y := RunCLIString(append(append([]string{}, args...), "--yaml-output", q), "")
+			j := RunCLIString(append(append([]string{}, args...), "-c", q), "")
+			if y.Status != 0 || j.Status != 0 {
+				c.Violation("yaml-out "+q, "yaml", map[string]any{"why": "failed: " + y.Stderr + j.Stderr})
+				continue
+			}
+			b := RunCLIString([]string{"-c", "--yaml-input", "."}, y.Stdout)
+			same := false
+			if b.Status == 0 {
+				same = c12SameAsDoubles(c12DecodeNumbers(b.Stdout), c12DecodeNumbers(j.Stdout))
+			}
+			c.DistinctN(1)
+			c.Outcome("yaml round trip of numbers")
+			if !same {
+				c.Violation("yaml-roundtrip "+q, "yaml", map[string]any{"why": fmt.Sprintf("%s written with --yaml-output is %q, which reads back as %q (status %d); the value is %q", q, y.Stdout, b.Stdout, b.Status, strings.TrimSpace(j.Stdout))})
+			}
+		}
+	}
+	c.Sample(map[string]any{"yaml_numbers": "sign x integer spelling (decimal, padded, underscores, 0x/0o/0b, 21 digits) x fraction (none, '.', .5, .50, .0) x exponent (none, e3, E3, e+03, e-2, e0) in 4 document shapes x 5 commands", "oracle": "stdout is well-formed JSON; --yaml-output | --yaml-input gives the same numbers"})
+}
+
+// c12SameAsDoubles: equal values, where a number that was printed from a double may be compared as a double
+// (the two renderers print different shortest spellings of the same double), integers otherwise exactly.
+func c12SameAsDoubles(a, b any) bool {
+	switch x := a.(type) {
+	case []any:
+		y, ok := b.([]any)
+		if !ok || len(x) != len(y) {
+			return false
+		}
+		for i := range x {
+			if !c12SameAsDoubles(x[i], y[i]) {
+				return false
+			}
+		}
+		return true
+	case map[string]any:
+		y, ok := b.(map[string]any)
+		if !ok || len(x) != len(y) {
+			return false
+		}
+		for k := range x {
+			if _, has := y[k]; !has || !c12SameAsDoubles(x[k], y[k]) {
+				return false
+			}
+		}
+		return true
+	}
+	if na, ok := a.(json.Number); ok {
+		nb, ok := b.(json.Number)
+		if !ok {
+			return false
+		}
+		ia, oka := new(big.Int).SetString(string(na), 10)
+		ib, okb := new(big.Int).SetString(string(nb), 10)
+		if oka && okb {
+			return ia.Cmp(ib) == 0 // two integer spellings: exactly
+		}
+		fa, _ := strconv.ParseFloat(string(na), 64)
+		fb, _ := strconv.ParseFloat(string(nb), 64)
+		return fa == fb
+	}
+	return univ.Equal(a, b)
+}
+
+func c12DecodeNumbers(text string) any {
+	var v any
+	dec := json.NewDecoder(strings.NewReader(text))
+	dec.UseNumber()
+	if err := dec.Decode(&v); err != nil {
+		return err.Error()
+	}
+	return v
 }
 
 func c12Replay(v *engine.Violation) (bool, string) {
 	d := v.Detail
 	switch v.Check {
+	case "yaml-numbers":
+		return true, fmt.Sprint(d["why"])
 	case "strings", "numbers":
 		msg := c12Value(univ.FromTagged(d["value"]), true)
 		return msg != "", msg
